@@ -139,6 +139,28 @@ func (f *Frame) call(c *ssa.CallCommon, instr ssa.Value, st *State, reach string
 			if v, ok := f.sprintf(c, args, instr.Name()); ok {
 				return v
 			}
+		case "encoding/json.Unmarshal":
+			// json.Unmarshal(data, &x) with x a local: x becomes a function of data when decoding succeeds
+			// (json_ok_S / json_dec_S uninterpreted, A-DEP); on failure x is unconstrained.
+			if len(args) == 2 && args[1].Ptr != nil && args[0].Sort == "Str" {
+				var el types.Type
+				if args[1].Ptr.Cell != nil && len(args[1].Ptr.Path) == 0 {
+					el = args[1].Ptr.Cell.goT
+				}
+				cur := g.load(st, args[1].Ptr, el)
+				if cur.Term != "" {
+					srt := cur.Sort
+					okf := g.uf("json_ok_"+mangle(srt), []string{"Str"}, "Bool")
+					decf := g.uf("json_dec_"+mangle(srt), []string{"Str"}, srt)
+					errv := g.fresh(f.name(instr), "Err")
+					g.assume(fmt.Sprintf("(= (= %s Err_nil) (%s %s))", errv, okf, args[0].Term))
+					junk := g.fresh(f.name(instr)+"_partial", srt)
+					nv := g.def(f.name(instr)+"_dec", srt, fmt.Sprintf("(ite (= %s Err_nil) (%s %s) %s)", errv, decf, args[0].Term, junk))
+					g.store(st, args[1].Ptr, Val{Sort: srt, Term: nv, GoT: el})
+					g.trusted["encoding/json.Unmarshal (decoding is a function of the input bytes: json_ok/json_dec uninterpreted)"] = true
+					return Val{Sort: "Err", Term: errv, GoT: resT}
+				}
+			}
 		case "crypto/sha256.New":
 			g.useTheory("strings")
 			h := g.fresh(f.name(instr), "Iface")
@@ -461,7 +483,12 @@ func (f *Frame) appendOp(args []Val, c *ssa.CallCommon, instr ssa.Value, st *Sta
 	srt := s.Sort
 	if srt == "Str" {
 		// append([]byte, ...): byte strings are values
-		return Val{Sort: "Str", Term: g.def(f.name(instr), "Str", fmt.Sprintf("(str_cat %s %s)", s.Term, src.Term)), GoT: instr.Type()}
+		// appending to the nil slice behaves like appending to the empty one
+		base := s.Term
+		if base == "Bytes_nil" {
+			base = strLit("")
+		}
+		return Val{Sort: "Str", Term: g.def(f.name(instr), "Str", fmt.Sprintf("(str_cat %s %s)", base, src.Term)), GoT: instr.Type()}
 	}
 	if _, ok := g.sorts.sliceEl[srt]; !ok {
 		if srt == "Coins" {
